@@ -11,6 +11,11 @@ import (
 	"time"
 
 	"github.com/anishathalye/porcupine"
+	"github.com/prometheus/client_golang/prometheus"
+
+	repositoryFactory "github.com/jdillenkofer/pithos/internal/storage/database/repository"
+	"github.com/jdillenkofer/pithos/internal/storage/middlewares/delegator"
+	"github.com/jdillenkofer/pithos/internal/storage/outbox"
 	"github.com/jdillenkofer/pithos/internal/storage"
 	"github.com/jdillenkofer/pithos/verifharness/dump"
 	"github.com/jdillenkofer/pithos/verifharness/ev"
@@ -35,6 +40,7 @@ type Case struct {
 	Versioning string    `json:"versioning"` // "", Enabled, Suspended
 	Ops        []prog.Op `json:"ops,omitempty"`
 	Workers    [][]WOp   `json:"workers,omitempty"`
+	Outbox     bool      `json:"outbox,omitempty"` // conc: storage outbox (real worker) in front of the storage
 }
 
 func seqCfg() prog.GenConfig {
@@ -52,6 +58,7 @@ func genCase(t *rapid.T, env *ev.Env) Case {
 		return Case{Mode: "seq", Stack: stack, Ops: seqCfg().Gen(t)}
 	}
 	c := Case{Mode: "conc", Stack: rapid.SampledFrom([]string{"P2", "P1"}).Draw(t, "cstack"), Versioning: rapid.SampledFrom([]string{"", "", "Enabled", "Suspended"}).Draw(t, "versioning")}
+	c.Outbox = rapid.IntRange(0, 2).Draw(t, "outbox") == 0
 	nw := rapid.IntRange(2, 6).Draw(t, "workers")
 	for w := 0; w < nw; w++ {
 		n := rapid.IntRange(2, 7).Draw(t, "nops")
@@ -152,6 +159,11 @@ var appendModel = porcupine.Model{
 	},
 }
 
+type noLifecycle struct{ delegator.DelegatingStorage }
+
+func (n *noLifecycle) Start(ctx context.Context) error { return nil }
+func (n *noLifecycle) Stop(ctx context.Context) error  { return nil }
+
 func chunk(w, i, n int) string {
 	tag := fmt.Sprintf("<g%d#%d>", w, i)
 	if n < len(tag) {
@@ -173,6 +185,36 @@ func runConc(env *ev.Env, c Case) (o ev.Outcome) {
 	defer inst.Close()
 	ctx := context.Background()
 	st := inst.Storage
+	o.Class(fmt.Sprintf("outbox:%v", c.Outbox))
+	if c.Outbox {
+		obDB, err := stacks.OpenDB(dir + "-outbox")
+		if err != nil {
+			o.Failf("harness: %v", err)
+			return
+		}
+		defer os.RemoveAll(dir + "-outbox")
+		defer obDB.Close()
+		repo, err := repositoryFactory.NewStorageOutboxEntryRepository(obDB)
+		if err != nil {
+			o.Failf("harness: %v", err)
+			return
+		}
+		ob, err := outbox.NewStorage(obDB, "c12-outbox", &noLifecycle{delegator.Wrap(inst.Storage)}, repo, prometheus.NewRegistry(), 0)
+		if err != nil {
+			o.Failf("harness: %v", err)
+			return
+		}
+		if err := ob.Start(ctx); err != nil {
+			o.Failf("harness: %v", err)
+			return
+		}
+		defer func() {
+			sctx, cancel := context.WithTimeout(context.Background(), 15*time.Second)
+			defer cancel()
+			_ = ob.Stop(sctx)
+		}()
+		st = ob
+	}
 	bn, key := storage.MustNewBucketName("append-bucket"), storage.MustNewObjectKey("log")
 	if err := st.CreateBucket(ctx, bn); err != nil {
 		o.Failf("harness: %v", err)
@@ -345,7 +387,7 @@ func TestC12(t *testing.T) {
 	ev.Main(t, ev.Spec[Case]{
 		ID:    "C12",
 		Level: "exploration",
-		Rule: "two case kinds: (seq) model-based programs dominated by AppendObject with and without write offset (right / wrong / zero), interleaved with puts, deletes, copies, multipart completes, versioning toggles and restarts on stacks P1,P2,P3,N1, full state compared after every step; (conc) 2-6 goroutines issue 2-7 ops each on ONE key (appends of uniquely tagged chunks with and without offsets taken from sizes they observed, puts, deletes, gets) in an unversioned / Enabled / Suspended bucket; the recorded history plus a final read is checked for linearizability against an append-log model with porcupine (accepted offset append => offset == size at its linearization point; returned size == new size; a get returns exactly the content); " +
+		Rule: "two case kinds: (seq) model-based programs dominated by AppendObject with and without write offset (right / wrong / zero), interleaved with puts, deletes, copies, multipart completes, versioning toggles and restarts on stacks P1,P2,P3,N1, full state compared after every step; (conc) 2-6 goroutines issue 2-7 ops each on ONE key (appends of uniquely tagged chunks with and without offsets taken from sizes they observed, puts, deletes, gets) in an unversioned / Enabled / Suspended bucket, a third of them through the storage outbox with its real worker in front; the recorded history plus a final read is checked for linearizability against an append-log model with porcupine (accepted offset append => offset == size at its linearization point; returned size == new size; a get returns exactly the content); " +
 			"non-trivial = seq: an offset append was rejected and a later one accepted; conc: >=2 appends overlapped in time and >=1 was rejected; distinct = distinct case JSON",
 		Assumptions: []string{"conc part samples schedules; histories containing an infrastructure error (database busy) are discarded as indeterminate", "a rejected append is always admissible (the property only restricts acknowledged appends)"},
 		Gen:         genCase,
